@@ -4,7 +4,9 @@
 (*   name  : catalogue name understood by harness/src/bin/c19.rs                              *)
 (*   role  : "plain" (selector, metric, enum, error), "params" (parameter set: must expose a  *)
 (*           validation verdict and a re-fit), "model" (fitted instance), "skipped" (a value  *)
-(*           the code documents as not serialisable: the serialiser must refuse it)           *)
+(*           the code documents as not serialisable: the serialiser must refuse it), "sweep"  *)
+(*           (an error enum probed structurally: configuration = variant index as the          *)
+(*           deserialiser numbers them; an index beyond the last variant is "absent")          *)
 (*   gen   : generic over the float type (both f32 and f64 are exercised)                      *)
 (*   nvar  : number of configurations (variants / hyper-parameter sets / invalid sets /        *)
 (*           boundary values of the legal ranges / post-fit setters and public fields moved    *)
@@ -29,6 +31,11 @@ T(name, role, gen, nvar, eq, fnv, rearm, wide) ==
 Catalogue == <<
   T("Error", "plain", FALSE, 5, FALSE, {}, FALSE, FALSE),
   T("Error.NdShape", "skipped", FALSE, 1, FALSE, {}, FALSE, FALSE),
+  T("Error.api", "plain", FALSE, 16, FALSE, {}, FALSE, FALSE),
+  T("Error.sweep", "sweep", FALSE, 10, FALSE, {}, FALSE, FALSE),
+  T("PlattError.sweep", "sweep", FALSE, 18, FALSE, {}, FALSE, FALSE),
+  T("ElasticNetError.sweep", "sweep", FALSE, 18, FALSE, {}, FALSE, FALSE),
+  T("FtrlError.sweep", "sweep", FALSE, 18, FALSE, {}, FALSE, FALSE),
   T("PlattError", "plain", FALSE, 9, FALSE, {}, FALSE, FALSE),
   T("L1Dist", "plain", FALSE, 1, TRUE, {}, FALSE, FALSE),
   T("L2Dist", "plain", FALSE, 1, TRUE, {}, FALSE, FALSE),
@@ -120,5 +127,5 @@ Catalogue == <<
 
 Names == {Catalogue[i].name : i \in 1..Len(Catalogue)}
 Entry(name) == Catalogue[CHOOSE i \in 1..Len(Catalogue) : Catalogue[i].name = name]
-MinKeys(role) == IF role = "plain" THEN 2 ELSE 3
+MinKeys(role) == IF role \in {"plain", "sweep"} THEN 2 ELSE 3
 =============================================================================
